@@ -651,3 +651,30 @@ Lemma per_call_and_exempt_members :
   names_with is_exempt run_classes = exempt_members /\
   names_with is_exempt session_classes = [].
 Proof. vm_compute. repeat split; reflexivity. Qed.
+
+(* a session started by a flow_action trigger: parentRun is loaded at start, nil after a re-read, loaded again by
+   prepareForSprint before the resumed sprint reads it *)
+Example ex_flow_action_parent :
+  match start ex_assets TFlowAction 1%N with
+  | ROk x =>
+      let lv := {| lv_core := session_ x; lv_batch_trigger := false; lv_tr := transient_at_start TFlowAction false |} in
+      t_parent (lv_tr lv) = true /\
+      match restore (persist lv) with
+      | Restored lv' =>
+          t_parent (lv_tr lv') = false /\
+          option_map t_parent (context_in_resume ex_assets (lv_core lv') (lv_tr lv') (RMsg [120%N])) = Some true /\
+          option_map t_parent (context_in_resume ex_assets (lv_core lv) (lv_tr lv) (RMsg [120%N])) = Some true
+      | RestoreError _ => False
+      end
+  | _ => False
+  end.
+Proof. vm_compute. repeat split; reflexivity. Qed.
+
+(* a rejected resume (timeout against a wait without timeout: engine error 103) between two restarts *)
+Example ex_rejected_between_restarts :
+  run_history_v ex_assets [84%N] TManual 1%N true (with_pattern [true; true] [RTimeout; RMsg [121%N]])
+  = run_history_v ex_assets [84%N] TManual 1%N true (never [RTimeout; RMsg [121%N]])
+  /\ map v_outcome (firstn 1 (skipn 1 (run_history_v ex_assets [84%N] TManual 1%N true (never [RTimeout; RMsg [121%N]])))) = [ORejected 103]
+  /\ map v_context (firstn 1 (skipn 1 (run_history_v ex_assets [84%N] TManual 1%N true (never [RTimeout; RMsg [121%N]])))) = [None]
+  /\ length (run_history_v ex_assets [84%N] TManual 1%N true (never [RTimeout; RMsg [121%N]])) = 3%nat.
+Proof. vm_compute. repeat split; reflexivity. Qed.
